@@ -40,6 +40,14 @@ inductive Basic
   | none | wrong | right
   deriving DecidableEq, Repr
 
+/-- Result of `os.Stat` + reading the file named by the GL-Inet cookie
+(`glCheckToken`/`glGetTokenDate`, authglinet.go:57-108). -/
+inductive GLStat
+  | missing          -- `os.Stat` fails (no such file, not a directory, name too long, NUL, …)
+  | short            -- exists, but no 4 bytes can be read (also a directory): date 0
+  | date (d : Nat)   -- the first 4 bytes, native endian
+  deriving DecidableEq, Repr
+
 structure Req where
   path : Bytes            -- `r.URL.Path` (decoded), as the wrappers see it
   method : Bytes          -- `r.Method`
@@ -55,6 +63,14 @@ structure Req where
   further `Authorization` values, cookies of other names, further
   `agh_session` values, …  No wrapper reads them. -/
   headers : List (Bytes × Bytes) := []
+  /-- `GLMode` (`--glinet`): the router's token files are a further credential -/
+  glMode : Bool := false
+  /-- value of the first `Admin-Token` cookie as net/http parses it -/
+  glCookie : Option Bytes := none
+  /-- what the operating system finds at the path `glFilePrefix ++ value` -/
+  glStat : GLStat := .missing
+  /-- `uint32(time.Now().UTC().Unix())` -/
+  now : Nat := 0
   deriving DecidableEq, Repr
 
 /-- Where a wrapper redirects to (the first argument of `http.Redirect`). -/
@@ -62,6 +78,7 @@ inductive Target
   | login     -- "login.html"   (optionalAuthThird, only for `/` and `/index.html`)
   | install   -- "install.html" (postInstall, first run)
   | dash      -- ""             (optionalAuth: `/login.html` with a valid session)
+  | glRouter  -- "http://<host>" (glProcessRedirect: the router's own login page, gl-inet mode)
   deriving DecidableEq, Repr
 
 /-- What a request ends in.  `ran` = the innermost (registered) handler was
@@ -119,14 +136,50 @@ def isPublicResource (p : Bytes) : Bool :=
 
 /-! ## Authentication decision (optionalAuthThird:236-264) -/
 
-/-- A session cookie, when present, decides alone (Basic credentials are then
-not looked at); without a cookie, Basic credentials decide. -/
-def authenticated (r : Req) : Bool :=
-  match r.cookie with
-  | .none => r.basic == .right
+/-- `glTokenTimeoutSeconds` -/
+def glTimeout : Nat := 3600
+
+/-- `filepath.Base(v) == v` on Unix: `v` is not empty and holds no separator —
+or is the single separator `/` (`Base("/") = "/"`).  `.` and `..` are plain
+names here: `glFilePrefix ++ ".."` is the entry `gl_token_..`. -/
+def plainName (v : Bytes) : Bool := (v != [] && !v.contains slash) || v == [slash]
+
+/-- `glCheckToken` (authglinet.go:57, after 40971e7): the cookie value must be a
+plain file name, never a path; then the file `glFilePrefix ++ value` must exist;
+its date (0 when it cannot be read) plus the timeout, in `uint32` arithmetic,
+must not be before now. -/
+def glCheckToken (r : Req) : Bool :=
+  match r.glCookie with
+  | none => false
+  | some v =>
+    plainName v &&
+    (match r.glStat with
+     | .missing => false
+     | .short => decide (r.now ≤ (0 + glTimeout) % 4294967296)
+     | .date d => decide (r.now ≤ (d + glTimeout) % 4294967296))
+
+/-- `glProcessCookie` (authglinet.go:39). -/
+def glProcessCookie (r : Req) : Bool :=
+  r.glMode && r.glCookie.isSome && glCheckToken r
+
+/-- Session cookie or Basic credentials: a session cookie, when present, decides
+alone (Basic credentials are then not looked at); without a cookie, Basic
+credentials decide. -/
+def sessionOrBasic (c : Cookie) (b : Basic) : Bool :=
+  match c with
+  | .none => b == .right
   | .valid => true
   | .unknown => false
   | .expired => false
+
+/-- `optionalAuthThird`'s notion of an authenticated request: the gl-inet token
+first, then session cookie / Basic credentials. -/
+def authenticated (r : Req) : Bool :=
+  glProcessCookie r || sessionOrBasic r.cookie r.basic
+
+/-- `Auth.authRequired` (auth.go:396): always in gl-inet mode, else when a user
+is configured. -/
+def authRequired (r : Req) : Bool := r.glMode || r.usersExist
 
 /-! ## The wrappers -/
 
@@ -156,38 +209,39 @@ def postInstallW (h : Handler) : Handler := fun r =>
 def preInstallW (h : Handler) : Handler := fun r =>
   if !r.firstRun then .forbiddenPre else h r
 
+/-- Where an unauthenticated `/` or `/index.html` is sent: `glProcessRedirect`
+(the router's login page) in gl-inet mode, `login.html` otherwise. -/
+def loginTarget (glMode : Bool) : Target := if glMode then .glRouter else .login
+
 /-- `optionalAuthThird` (authhttp.go:236): `some resp` = "must authenticate
 first" and `resp` has been written. -/
 def optionalAuthThird (r : Req) : Option Resp :=
   if authenticated r then none
-  else if r.path = pRoot ∨ r.path = pIndex then some (.redirect .login)
+  else if r.path = pRoot ∨ r.path = pIndex then some (.redirect (loginTarget r.glMode))
   else some .forbiddenAuth
 
-/-- What `optionalAuth` decides by itself, as a function of exactly the four
-things it looks at: `some resp` = it answers `resp` and the wrapped handler is
-not called; `none` = it calls the wrapped handler. -/
-def authDecision (path : Bytes) (cookie : Cookie) (basic : Basic) (usersExist : Bool) :
-    Option Resp :=
+/-- What `optionalAuth` decides by itself, as a function of exactly the things
+it looks at — path, class of the session cookie, class of the Basic
+credentials, "authentication is required", and in gl-inet mode the verdict on
+the token cookie: `some resp` = it answers `resp` and the wrapped handler is not
+called; `none` = it calls the wrapped handler. -/
+def authDecision (path : Bytes) (cookie : Cookie) (basic : Basic)
+    (authReq glMode glOK : Bool) : Option Resp :=
   if path = pLoginHtml then
-    if usersExist && cookie == .valid then some (.redirect .dash) else none
+    if authReq && cookie == .valid then some (.redirect .dash) else none
   else if isPublicResource path then none
-  else if usersExist then
-    let authed : Bool := match cookie with
-      | .none => basic == .right
-      | .valid => true
-      | .unknown => false
-      | .expired => false
-    if authed then none
-    else if path = pRoot ∨ path = pIndex then some (.redirect .login)
+  else if authReq then
+    if glOK || sessionOrBasic cookie basic then none
+    else if path = pRoot ∨ path = pIndex then some (.redirect (loginTarget glMode))
     else some .forbiddenAuth
   else none
 
 /-- `optionalAuth` (authhttp.go:288). -/
 def optionalAuthW (h : Handler) : Handler := fun r =>
   if r.path = pLoginHtml then
-    if r.usersExist && r.cookie == .valid then .redirect .dash else h r
+    if authRequired r && r.cookie == .valid then .redirect .dash else h r
   else if isPublicResource r.path then h r
-  else if r.usersExist then
+  else if authRequired r then
     match optionalAuthThird r with
     | some resp => resp
     | none => h r
